@@ -193,9 +193,11 @@ impl Widget {
             if let Some(refs) = expr::build_object_ref_list(p, diagnostics) {
                 refs.into_iter()
                     .map(|id| {
+                        // not get_by_id(): an implicit "this" reference carries the generated name
                         let o = ctx
                             .object_tree
-                            .get_by_id(&id)
+                            .flat_iter()
+                            .find(|n| n.name() == id)
                             .expect("object ref must be valid");
                         if is_action_separator(ctx, o, diagnostics) {
                             ACTION_SEPARATOR_NAME.to_owned()
